@@ -11,8 +11,8 @@ from pyvc.contracts import ClassDecl, FnContract, Lemma
 from pyvc import native
 from pyvc.engine import lemma_vcs
 
-REL = "hippolyzer/lib/proxy/circuit.py"
-MOD = "hippolyzer.lib.proxy.circuit"
+
+
 PID = "C04"
 
 META = {
@@ -35,145 +35,11 @@ META = {
     ],
 }
 
-WF = [
-    "self._maxlen >= 1",
-    "self.injections.maxlen == self._maxlen",
-    "len(self.injections) <= self._maxlen",
-    "self._injection_base >= 0",
-    "forall(lambda i, k: implies(0 <= i and i <= k and k < len(self.injections), "
-    "self.injections[k] - self.injections[i] >= k - i))",
-    "implies(len(self.injections) > 0, self.injections[len(self.injections) - 1] <= self._packet_id_base)",
-    "implies(self._injection_base > 0, len(self.injections) == self._maxlen)",
-]
-
-POS = ("0 <= k and k <= len(t.injections) and implies(k > 0, t.injections[k - 1] < e) "
-       "and implies(k < len(t.injections), e < t.injections[k])")
-
-
-def mk_tracker(vals):
-    """concrete InjectionTracker from model values"""
-    from hippolyzer.lib.proxy.circuit import InjectionTracker
-    inj = vals.get("self.injections") or {"list": [], "maxlen": None}
-    ml = vals.get("self._maxlen")
-    if not isinstance(ml, int) or ml < 1:
-        ml = inj.get("maxlen") or max(1, len(inj["list"]))
-    t = InjectionTracker(0, maxlen=ml)
-    t.injections = deque(inj["list"], maxlen=inj.get("maxlen") or ml)
-    dr = vals.get("self.dropped") or {"list": [], "maxlen": None}
-    t.dropped = deque(dr["list"], maxlen=dr.get("maxlen") or ml)
-    t._injection_base = vals.get("self._injection_base", 0) if isinstance(vals.get("self._injection_base", 0), int) else 0
-    t._packet_id_base = vals.get("self._packet_id_base", 0) if isinstance(vals.get("self._packet_id_base", 0), int) else 0
-    t._maxlen = ml
-    return t
-
-
-def runner_for(meth):
-    def run(reg, c, vals):
-        from hippolyzer.lib.proxy.circuit import InjectionTracker
-        t = mk_tracker(vals)
-        native.QWindow.size = len(t.injections) + 2
-        args = {p: vals[p] for p in c.param_names if p in vals}
-        res = native.check_call(reg, c, getattr(InjectionTracker, meth), t, args)
-        res["input"] = {"injections": list(t.injections), "maxlen": t._maxlen, "injection_base": t._injection_base,
-                        "packet_id_base": t._packet_id_base, "args": args}
-        return res
-    return run
-
-
-def search_states(rng):
-    """small tracker states reachable by histories, plus argument values around them"""
-    for ml in (1, 2, 3):
-        for n_ops in range(0, 7):
-            for ops in itertools.product("sij", repeat=n_ops):
-                vals = _play(ops, ml)
-                top = vals["self._packet_id_base"]
-                for a in range(0, top + 3):
-                    v = dict(vals)
-                    for p in ("orig_id", "effective_id", "packet_id"):
-                        v[p] = a
-                    yield v
-
-
-def _play(ops, ml):
-    from hippolyzer.lib.proxy.circuit import InjectionTracker
-    t = InjectionTracker(0, maxlen=ml)
-    nxt = 1
-    for o in ops:
-        if o == "s":
-            t.track_seen(t.get_effective_id(nxt))
-            nxt += 1
-        elif o == "i":
-            t.gen_injectable_id()
-        else:
-            t.track_seen(t.get_effective_id(max(1, nxt - 2)))
-    return {"self.injections": {"list": list(t.injections), "maxlen": ml}, "self._maxlen": ml,
-            "self._injection_base": t._injection_base, "self._packet_id_base": t._packet_id_base,
-            "self.dropped": {"list": [], "maxlen": ml}}
-
-
-def fn(name, **kw):
-    c = FnContract(key=f"{MOD}:InjectionTracker.{name}", relpath=REL, qualname=f"InjectionTracker.{name}",
-                   cls="InjectionTracker", prop=PID, **kw)
-    c.native = {"run": runner_for(name), "search": search_states}
-    return c
+from contracts.common import reg_tracker, _play, MOD, REL
 
 
 def register(reg):
-    reg.add_class(ClassDecl("InjectionTracker", fields={
-        "injections": "IntDeque", "dropped": "IntDeque", "_injection_base": "Int", "_packet_id_base": "Int",
-        "_maxlen": "Int"}, inv=WF))
-    reg.predicates["pos"] = (["t", "e", "k"], POS)
-    reg.predicates["injected"] = (["t", "e"], "exists(lambda i: 0 <= i and i < len(t.injections) and t.injections[i] == e)")
-
-    reg.add_fn(fn("track_seen", params={"orig_id": "Int"}, param_names=["orig_id"], use_wf=False,
-                  ensures=["self._packet_id_base == max(old(self._packet_id_base), orig_id)"],
-                  frame=["_packet_id_base"]))
-
-    reg.add_fn(fn("gen_injectable_id", returns="Int",
-                  ensures=[
-                      "result == old(self._packet_id_base) + 1",
-                      "self._packet_id_base == result",
-                      "self.injections[len(self.injections) - 1] == result",
-                      "implies(old(len(self.injections)) < self._maxlen, "
-                      "len(self.injections) == old(len(self.injections)) + 1 "
-                      "and self._injection_base == old(self._injection_base) "
-                      "and forall(lambda i: implies(0 <= i and i < old(len(self.injections)), "
-                      "self.injections[i] == old(self.injections)[i])))",
-                      "implies(old(len(self.injections)) == self._maxlen, "
-                      "len(self.injections) == old(len(self.injections)) "
-                      "and self._injection_base == old(self._injection_base) + 1 "
-                      "and forall(lambda i: implies(0 <= i and i < len(self.injections) - 1, "
-                      "self.injections[i] == old(self.injections)[i + 1])))",
-                  ],
-                  frame=["injections", "_injection_base", "_packet_id_base"]))
-
-    reg.add_fn(fn("was_injected", params={"packet_id": "Int"}, param_names=["packet_id"], returns="Bool",
-                  ensures=["iff(result, injected(self, packet_id))"], frame=[]))
-
-    reg.add_fn(fn("was_dropped", params={"packet_id": "Int"}, param_names=["packet_id"], returns="Bool",
-                  ensures=["iff(result, exists(lambda i: 0 <= i and i < len(self.dropped) and self.dropped[i] == packet_id))"],
-                  frame=[]))
-
-    reg.add_fn(fn("mark_dropped", params={"packet_id": "Int"}, param_names=["packet_id"],
-                  ensures=["exists(lambda i: 0 <= i and i < len(self.dropped) and self.dropped[i] == packet_id)"],
-                  frame=["dropped"]))
-
-    reg.add_fn(fn("get_effective_id", params={"orig_id": "Int"}, param_names=["orig_id"], returns="Int",
-                  ensures=["exists(lambda k: pos(self, result, k) and result == orig_id + self._injection_base + k)"],
-                  frame=[],
-                  loops={0: {"inv": [
-                      "new_id == orig_id + self._injection_base + _i",
-                      "implies(_i > 0, self.injections[_i - 1] < new_id)"]}}))
-
-    reg.add_fn(fn("get_original_id", params={"effective_id": "Int"}, param_names=["effective_id"], returns="Int",
-                  raises={"ValueError": "injected(self, effective_id)"},
-                  ensures=["forall(lambda k: implies(pos(self, effective_id, k), "
-                           "result == effective_id - k - self._injection_base))"],
-                  frame=[],
-                  loops={0: {"inv": [
-                      "not injected(self, effective_id)",
-                      "forall(lambda k: implies(pos(self, effective_id, k), "
-                      "new_id == effective_id - max(0, k - (len(self.injections) - _i))))"]}}))
+    reg_tracker(reg)
 
     def L(name, doc, **spec):
         spec["name"] = name
